@@ -121,7 +121,8 @@ Theorem natural_layout_old_overaligned_exact : forall c_size c_align ms,
 Proof. exact Proofs.natural_layout_old_overaligned_exact. Qed.
 Print Assumptions natural_layout_old_overaligned_exact.
 
-(* ------------------------------------------------------------------ the array adjustment *)
+(* ------------------------------------------------------------------ the array adjustment
+   (a rule of the source until fix f7a3d75d; see the comment at Model.array_adjust) *)
 
 Theorem array_hack_harmless_when_elem_align_le_8 : forall fl es ea len,
   ea <= 8 -> array_adjust fl (Some ((es, ea), len)) = fl.
